@@ -128,6 +128,7 @@ def check_validation(fx, rep):
                 rep.violation('R1-validation-covers-runtime', key + ':accepts-unchecked', 'validate_eof_code accepts opcode 0x%02X on a path that never establishes the condition (%s)' % (b, why), f.where())
             else:
                 rep.ok('R1-validation-covers-runtime', key, '%d accepting paths all pass the test' % len(accepting))
+    check_rjumpv_table(rep, f, rows)
     # immediates, unknown / disabled opcodes: conditions on the opcode table entry
     generic = [
         ('MissingImmediateBytes', ('Add(0, (immediate_size(', 'Ge', 'len(&arg1)'), 'every immediate byte of an accepted instruction exists'),
@@ -172,6 +173,55 @@ def check_validation(fx, rep):
         rep.violation('R1-validation-covers-runtime', 'LastInstructionNotTerminating', 'a section is accepted on an exit path that does not require the last instruction to be terminating', f.where())
     else:
         rep.ok('R1-validation-covers-runtime', 'LastInstructionNotTerminating', 'every accepting exit requires a terminating last instruction')
+
+
+def check_rjumpv_table(rep, f, rows):
+    """R1b: RJUMPV with immediate byte m has m + 1 table entries (the interpreter jumps through
+    entry `case` whenever case <= m).  The loop that marks the table bytes as immediates must run
+    over 2 * (m + 1) bytes and the loop that collects the jump targets to be validated over m + 1
+    entries - for every m in 0..=255 (the bounds are evaluated from the extracted expressions)."""
+    import c23
+    marks, collects = set(), set()
+    for op, rels, err, r in rows:
+        if op != 0xE2:
+            continue
+        cur = None
+        for e in r.events:
+            short = e[0].split('::')[-1]
+            if short == 'into_iter' and e[1] and e[1][0][0] == 'agg' and e[1][0][1].endswith('Range'):
+                cur = e[1][0]
+            elif short == 'into_iter' and e[1] and e[1][0][0] == 'call' and e[1][0][1].endswith('RangeInclusive::new'):
+                a, b = e[1][0][2][0], e[1][0][2][1]
+                cur = ('agg', 'Range', None, ('start', 'end'), (a, ('bin', 'Add', b, K(1))))
+            elif short == 'mark_as_immediate' and cur is not None:
+                marks.add(cur)
+            elif short == 'read_i16' and cur is not None and 'next(' in render(e[1][0]):
+                collects.add(cur)
+
+    def bounds(rng, m):
+        vals = dict(zip(rng[3], rng[4]))
+        env = {'arg1[1]': m}
+        return c23.ev(vals['start'], env), c23.ev(vals['end'], env)
+    for name, found, want in (('mark-immediates', marks, lambda m: (0, 2 * (m + 1))), ('collect-targets', collects, lambda m: (0, m + 1))):
+        key = '0xE2:table:' + name
+        if not found:
+            rep.undecided('R1-validation-covers-runtime', key, 'loop over the RJUMPV table not recognised', f.where())
+            continue
+        bad = None
+        for rng in found:
+            try:
+                for m in range(256):
+                    if bounds(rng, m) != want(m):
+                        bad = 'runs over %s for max_index=%d, the table has %s' % (bounds(rng, m), m, want(m))
+                        break
+            except (c23.NoValue, KeyError) as ex:
+                bad = 'bound not evaluable: %s (%s)' % (render(rng)[:80], ex)
+            if bad:
+                break
+        if bad:
+            rep.violation('R1-validation-covers-runtime', key, 'RJUMPV table loop (%s) %s: entries outside it are never %s' % (name, bad, 'marked' if name.startswith('mark') else 'validated as jump targets'), f.where())
+        else:
+            rep.ok('R1-validation-covers-runtime', key, 'covers the whole table for max_index 0..=255')
 
 
 def check_header(fx, rep):
